@@ -425,7 +425,20 @@ func (rm *room) propose(i int, actor user, before map[ref.Key]string) (typ strin
 	if honest && mem != "join" {
 		choice = 0
 	}
+	if t.Chance(40) {
+		choice = 10 // also by users who are not in the room: a server publishes its aliases
+	}
 	switch choice {
+	case 10: // m.room.aliases under the sender's server name (the sender key in pseudo-ID rooms): judged by a rule of its own, on the create event alone
+		name := string(actor.srv.Name)
+		if pseudoDir != nil {
+			name = actor.id
+		}
+		if !honest {
+			name = sim.Pick(t, []string{string(other.srv.Name), other.id, "", name + ".evil"})
+		}
+		typ, sk, content = "m.room.aliases", world.Str(name), map[string]any{"aliases": []any{fmt.Sprintf("#a%d:%s", i, actor.srv.Name)}}
+		r.Probe("aliases_event")
 	case 8: // a third-party invite is published, replaced (other identity key) or revoked
 		tok := sim.Pick(t, []string{"tokA", "tokB"})
 		typ, sk = spec.MRoomThirdPartyInvite, world.Str(tok)
